@@ -1,8 +1,20 @@
+//! mc-store: serves C14 C15 C17 C18 C19 (one module per property).
 use mc_core::Ctx;
+
+mod c14;
+mod c15;
+mod c17;
+mod c18;
+mod c19;
 
 fn main() {
     let ctx = Ctx::from_args();
     match ctx.id.as_str() {
+        "C14" => c14::run(ctx),
+        "C15" => c15::run(ctx),
+        "C17" => c17::run(ctx),
+        "C18" => c18::run(ctx),
+        "C19" => c19::run(ctx),
         other => mc_core::machinery_error(&format!("mc-store does not serve {other}")),
     }
 }
